@@ -572,6 +572,14 @@ func (e *env) keysLine() string {
 	return "W keys " + strings.Join(parts, ";")
 }
 
+func (e *env) labels() string {
+	ls := make([]string, len(e.members))
+	for i, m := range e.members {
+		ls[i] = m.label
+	}
+	return strings.Join(ls, ",")
+}
+
 func (e *env) primary() *kspec {
 	for _, m := range e.members {
 		if m.primary {
@@ -734,7 +742,11 @@ func (e *env) probe(y []byte, in probeIn, src, mut string) {
 	o.Count(fmt.Sprintf("%s/mut=%s/%s", f.name, mut, verdict))
 
 	desc := func() string {
-		return fmt.Sprintf("%s keyset [%s] probe %s/%s y=%s x=%s bits=%s", f.name, strings.TrimPrefix(e.keysLine(), "W keys "), src, mut, hlib.Tok(y), hlib.Tok(in.x), bits)
+		ys := hlib.Tok(y)
+		if len(y) > 4096 {
+			ys = fmt.Sprintf("#%d-bytes.%x…(members: %s; source kind %d)", len(y), y[:48], e.labels(), in.src)
+		}
+		return fmt.Sprintf("%s keyset [%s] probe %s/%s y=%s x=%s bits=%s", f.name, strings.TrimPrefix(e.keysLine(), "W keys "), src, mut, ys, hlib.Tok(in.x), bits)
 	}
 	// --- property oracles on the real code
 	if r1.ok != r2.ok || (f.hasLog && r1.logged != r2.logged) || !bytes.Equal(r1.out, r2.out) {
@@ -821,6 +833,14 @@ func (e *env) otherPrefix(c *kspec, p []byte) []byte {
 }
 
 func (e *env) newIn() probeIn {
+	if bigStream {
+		const kib, mib = 1 << 10, 1 << 20
+		n := e.rng.Pick(60*kib, 64*kib-100, 64*kib+32, 100*kib, 100*kib, mib-64, mib+128, mib+64*kib, mib+64*kib, 2*mib+512*kib)
+		in := probeIn{pt: e.rng.Bytes(n), x: e.rng.Bytes(e.rng.Pick(0, 1, 12)), src: e.rng.Intn(3)}
+		e.o.Count(fmt.Sprintf("streamingaead/big/plaintext=%dKiB", n/kib))
+		e.o.Count(fmt.Sprintf("streamingaead/big/source=%d", in.src))
+		return in
+	}
 	return probeIn{pt: e.rng.Bytes(e.rng.Pick(0, 1, 7, 16, 33, 70, 130)), x: e.rng.Bytes(e.rng.Pick(0, 1, 5, 12, 32))}
 }
 
@@ -1029,6 +1049,12 @@ func runCase(o *hlib.Out, rng *hlib.Rng, f *family, caseNo int) {
 
 	ids := &idAlloc{rng: rng, used: map[uint32]bool{}}
 	size := []int{1, 2, 2, 2, 3, 3, 3, 4, 4, 5, 5, 6}[rng.Intn(12)]
+	// every 16th streaming keyset: large segments and 60 KiB .. 2.5 MiB plaintexts (2-4 keys)
+	bigStream = f.name == "streamingaead" && caseNo%16 == 3
+	if bigStream {
+		size = 2 + size%3
+		o.Count("streamingaead/big/keysets")
+	}
 	km := keyset.NewManager()
 	var unused []*kspec
 	if rng.Chance(45) {
